@@ -41,4 +41,13 @@ pub fn run(ctx: &Ctx) {
     ctx.search("many-records", ctx.n(4_000, 400_000), &move || gen::conformant_case(big, BuildOpts::STRICT), &oracle);
     let wide = StreamCfg { max_fields: 90, ids: (1, 2), calls: (1, 2), max_sets: 3, max_recs: 3, ..c };
     ctx.search("wide-templates", ctx.n(10_000, 1_000_000), &move || gen::conformant_case(wide, BuildOpts::STRICT), &oracle);
+    // one or two ids redefined over and over (100-300 calls, data after every redefinition)
+    let chain = StreamCfg { ids: (1, 2), max_fields: 4, calls: (100, 300), pkts_per_call: (1, 1), max_sets: 2, max_recs: 2, ..c };
+    ctx.search("redefinition-chain", ctx.n(300, 30_000), &move || gen::conformant_case(chain, BuildOpts::STRICT), &oracle);
+    // datagram-sized packets under the full decode oracle: thousands of records per set,
+    // thousands of fields per template, hundreds of sets per packet
+    for (k, name) in ["datagram-sized-many-records", "datagram-sized-many-fields", "datagram-sized-many-sets"].iter().enumerate() {
+        let big = StreamCfg::datagram_sized(c.mix, k);
+        ctx.search(name, ctx.n(120, 6_000), &move || gen::conformant_case(big, BuildOpts::STRICT.big()), &oracle);
+    }
 }
